@@ -234,7 +234,7 @@ class LiteralProvider(LoaderProvider, DumperProvider):
         allowed_values_repr = self._get_allowed_values_repr(norm.args, mediator, request.loc_stack)
         return mediator.cached_call(
             self._make_loader,
-            cases=norm.args,
+            cases=tuple((type(arg), arg) for arg in norm.args),  # 0 == False and 1 == True, but they are different cases
             bytes_cases=bytes_cases,
             strict_coercion=strict_coercion,
             enum_loaders=enum_loaders,
@@ -252,6 +252,7 @@ class LiteralProvider(LoaderProvider, DumperProvider):
         bytes_cases: Sequence[bytes],
         bytes_loader: Loader[bytes],
     ) -> Loader:
+        cases = tuple(case for _, case in cases)
         if strict_coercion and any(isinstance(arg, bool) or _is_exact_zero_or_one(arg) for arg in cases):
             allowed_values_with_types = self._get_allowed_values_collection(
                 [(type(el), el) for el in cases],
